@@ -4,19 +4,16 @@ Every shim is listed in DESIGN.md section 5 and in each evidence file (``shims``
 are exercised on every run by the concrete replays: a shim that changed behaviour would
 make the traced run and the concrete run disagree, which is a harness error (exit 2).
 """
-import codecs
-import os
 
 ACTIVE = []
 
-# Set by harnesses whose subject *is* number->text formatting (C17, C19).
+# Set to False by harnesses whose subject *is* number->text formatting (C17, C19).
 FORMAT_SHIM_ENABLED = [True]
 
 
 def _install():
     from crosshair.core_and_libs import NoTracing  # noqa: F401
     from crosshair.libimpl import builtinslib
-    from crosshair import core
 
     # -- 1. bytes.__add__ with a non-bytes right operand must return NotImplemented ------
     SymbolicBytes = getattr(builtinslib, "SymbolicBytes", None)
@@ -37,6 +34,41 @@ def _install():
             except Exception:
                 pass
         ACTIVE.append("SymbolicBytes.__add__ returns NotImplemented for non-bytes right operands (CPython semantics)")
+
+    # -- 2. f-string formatting of a symbolic number yields a placeholder -----------------
+    from crosshair import opcode_intercept as oi
+    from crosshair.util import CrossHairValue
+    from crosshair.libimpl.builtinslib import AnySymbolicStr
+    from crosshair.tracers import NoTracing as _NT
+
+    FSV = oi.FormatStashingValue
+    o_str, o_fmt, o_repr = FSV.__str__, FSV.__format__, FSV.__repr__
+
+    def _is_sym_number(v):
+        with _NT():
+            return isinstance(v, CrossHairValue) and not isinstance(v, AnySymbolicStr)
+
+    def __str__(self):
+        if FORMAT_SHIM_ENABLED[0] and _is_sym_number(self.value):
+            self.formatted = "<sym>"
+            return ""
+        return o_str(self)
+
+    def __format__(self, fmt):
+        if FORMAT_SHIM_ENABLED[0] and _is_sym_number(self.value):
+            self.formatted = "<sym>"
+            return ""
+        return o_fmt(self, fmt)
+
+    def __repr__(self):
+        if FORMAT_SHIM_ENABLED[0] and _is_sym_number(self.value):
+            self.formatted = "<sym>"
+            return ""
+        return o_repr(self)
+
+    FSV.__str__, FSV.__format__, FSV.__repr__ = __str__, __format__, __repr__
+    ACTIVE.append("f-string formatting of a symbolic number yields the placeholder '<sym>' (diagnostic text is not modelled; "
+                  "switched off where formatting is the subject)")
 
 
 _install()
